@@ -1,6 +1,7 @@
 """C20 plug-in: `m1`/`m2` answers (the macro's value printed by the generated program) are compared with the parser
 models like C01/C02 `parse` answers; `bad` answers are `err <Kind>` on both sides."""
 import os, importlib.util
+from fractions import Fraction
 from oracle_util import *
 _here = os.path.dirname(os.path.abspath(__file__))
 def _load(name):
@@ -15,12 +16,28 @@ RULE = ("(hardening: texts of 700..2000 characters, 15+ digit coefficients / fra
         "their own line. Non-trivial = an invocation whose text the model accepts and that is longer than 30 characters (so the "
         "printer reformats it) or a rejected text; distinct = distinct request lines")
 
+# What C20 demands, and therefore what K compares here:
+#  * macro value == runtime parser's value, bit for bit: decided by S in the harness (both values come from the SAME
+#    build of the repository, string-compared);
+#  * macro value vs the PARSER MODEL (this comparison): ties the model the theorems are about to the code.  Everything
+#    structural is exact - accepted vs rejected, variable, vector length, term list, variable names, every exponent,
+#    every coefficient that is a single literal / a single fraction / a sum of at most two like terms (every order of
+#    summation gives the same bits there).  A coefficient that is the sum of THREE OR MORE like terms is compared up to the
+#    rounding of that sum: the order in which the runtime parser adds like terms is its own business (C20 is about
+#    macro == runtime parser, whatever the parser returns), so any order of the rounded additions of the correctly
+#    rounded literals is accepted: |impl - exact sum| <= (n+1) 2^-52 sum |d_i|  (n literals; the C01Rounding bound) -
+#    the rule of tools/props/c01.py `sum_close`, shared with C01 and C16.
+#  * a rejected text: "a compile error at that invocation" - the statement does not name the error kind, so two errors
+#    are equal whatever kind the diagnostic mentions (`compiled` vs `err` stays a disagreement).
+
 def compare(req, impl, model):
     from __main__ import default_compare
     r = req.split()
     rest = " ".join(r[1:])
+    if impl.startswith("err") and model.startswith("err"):
+        return None                        # the statement says "a compile error", not which one
     if r[0] in ("m1", "bad1"):
-        return _c01.compare("parse 0 " + rest, impl, model)
+        return _c01.compare("parse 0 " + rest, impl, model)     # incl. the like-term rule (c01.sum_close)
     return _c02.compare("parse 0 " + rest, impl, model)
 
 def nontrivial(req, model):
